@@ -414,7 +414,15 @@ class TextXVisitor(RRELVisitor):
                 if rule_name in model_parser.metamodel:
                     rule = model_parser.metamodel[rule_name]._tx_peg_rule
                     if isinstance(rule, RuleCrossRef):
+                        if rule_name in resolving_names:
+                            raise TextXSemanticError(
+                                f'Rule "{rule_name}" is defined only by '
+                                "a circular chain of rule references.",
+                                filename=model_parser.metamodel.file_name,
+                            )
+                        resolving_names.add(rule_name)
                         rule = _resolve_rule(rule)
+                        resolving_names.discard(rule_name)
                         model_parser.metamodel[rule_name]._tx_peg_rule = rule
                     if suppress:
                         # Special case. Suppression on rule reference.
@@ -448,6 +456,7 @@ class TextXVisitor(RRELVisitor):
                 grammar_parser.dprint(f"RESOLVING RULE CROSS-REFS - PASS {i + 1}")
 
             resolved_rules = set()
+            resolving_names = set()
             _resolve_rule(model_parser.parser_model)
 
             # Resolve rules of all meta-classes to handle unreferenced
